@@ -442,7 +442,49 @@ WITNESSES = [
     ('stylesheet', 'options', 'stylesheet.after', ';', '!', 'm10!', {}),
     ('stylesheet', 'snippets', 'bd', 'border:${1:1px} ${2:solid} ${3:#000}', 'border-x:1', 'bd', {}),
 ]
-FIXED_SIZE = GRID_SIZE + len(WITNESSES)
+# callback options (output.field / output.text) are option values like any other: the callable that is
+# consulted must be the one the most specific defining layer holds -- the very object, not a copy of it
+# (the caller's callbacks are stateful editor objects). (type, syntax, abbreviation, extra user keys)
+CALLABLE_WITNESSES = [
+    ('markup', None, 'ul>li*2>a[href]', {}),
+    ('markup', 'pug', 'div#a>p.b{t}+img', {}),
+    ('markup', 'jsx', 'Foo.bar>p[title]', {'text': ['w1', 'w2']}),
+    ('stylesheet', None, 'm10+p${1:5}+bd', {}),
+    ('stylesheet', 'sass', 'c#f+@kf', {'snippets': {'zq': 'zed:${1:1}'}}),
+]
+FIXED_SIZE = GRID_SIZE + len(WITNESSES) + len(CALLABLE_WITNESSES)
+
+
+def gen_c20_callable(ci):
+    t, syn, abbr, extra = CALLABLE_WITNESSES[ci]
+    import json
+    base = json.loads(json.dumps(extra))
+    if t == 'stylesheet':
+        base['type'] = t
+    if syn:
+        base['syntax'] = syn
+    s = syn or ('css' if t == 'stylesheet' else 'html')
+    cfgs = {}
+    # c0/c1: the call's own layer holds the callbacks (dict / held Config); c2/c3: only the global config does
+    for i, (holder, peer) in enumerate((('dict', True), ('Config', True), ('dict', False), ('Config', False))):
+        c = dict(json.loads(json.dumps(base)), id='c%d' % i, holder=holder, **{'global': 'g0'})
+        if peer:
+            c['peer'] = {'seed': 31 + i, 'style': 'upper'}
+        cfgs['c%d' % i] = c
+    cfgs['c4'] = dict(json.loads(json.dumps(base)), id='c4', holder='dict', **{'global': 'g0'})   # entry points other than expand()
+    ops = []
+    gcb = {'output.field': '@@gpeer.field', 'output.text': '@@gpeer.text'}
+    for layer in ({t: {'options': dict(gcb)}}, {s: {'options': dict(gcb)}}, {t: {'options': {'output.indent': '  '}}, s: {'options': dict(gcb)}},
+                  {t: {'options': dict(gcb)}, s: {'options': {'output.indent': '  '}}}):
+        ops.append({'op': 'set_global', 'global': 'g0', 'layer': layer})
+        for cid in ('c1', 'c3'):
+            ops.append({'op': 'rebuild_cfg', 'cfg': cid})
+        for cid in ('c0', 'c1', 'c2', 'c3'):
+            ops.append({'op': 'resolve', 'cfg': cid})
+            ops.append({'op': 'call', 'cfg': cid, 'abbr': abbr, 'pin': 0, 'c20': True})
+        ops.append({'op': 'call', 'cfg': 'c4', 'abbr': abbr, 'pin': 0, 'c20': True,
+                    'entry': 'expand_stylesheet' if t == 'stylesheet' else 'expand_markup'})
+    return {'world': {'configs': cfgs, 'caches': [], 'globals': {'g0': {}}}, 'ops': ops, 'meta': {'callable-witness': [t, s]}}
 
 
 def gen_c20_witness(wi):
@@ -476,6 +518,8 @@ def gen_c20_witness(wi):
 def gen_c20_indexed(run_seed, index, tier=None):
     if index < GRID_SIZE:
         return gen_c20_grid(index)
-    if index < FIXED_SIZE:
+    if index < GRID_SIZE + len(WITNESSES):
         return gen_c20_witness(index - GRID_SIZE)
+    if index < FIXED_SIZE:
+        return gen_c20_callable(index - GRID_SIZE - len(WITNESSES))
     return gen_c20(run_seed)
